@@ -1,6 +1,6 @@
 # setup: build the libTooling extractor from files on disk only (offline)
 LLVM_CXXFLAGS := $(shell llvm-config-14 --cxxflags)
-all: build/gx
+all: build/gx build/gm
 build/gx: tools/gx/gx.cc
 	mkdir -p build
 	clang++ $(LLVM_CXXFLAGS) -fno-rtti -O1 tools/gx/gx.cc -o build/gx /usr/lib/llvm-14/lib/libclang-cpp.so.14 /usr/lib/llvm-14/lib/libLLVM-14.so
